@@ -20,8 +20,8 @@ vars == <<node, S>>
 ProgIdx(pid) == CHOOSE i \in 1..Len(ProgsIn) : ProgsIn[i].id = pid
 
 \* ---- unlogged internal progress of the task that ran last
-Step1(X) == {Block(x, x.cur) : x \in {y \in X : y.cur # -1 /\ ~y.fin[y.cur+1] /\ CanBlock(y, y.cur)}}
-Going(X) == {y \in X : ~y.fin[y.cur+1] /\ ~Terminal(Ph(y, y.cur))}
+Step1(X) == {Block(x, x.cur) : x \in {y \in X : y.cur >= 0 /\ ~y.fin[y.cur+1] /\ CanBlock(y, y.cur)}}
+Going(X) == {y \in X : y.cur >= 0 /\ ~y.fin[y.cur+1] /\ ~Terminal(Ph(y, y.cur))}
 Variants(s) ==
   LET v1 == Step1({s})
       v2 == Step1(Going(v1))
@@ -31,9 +31,10 @@ Variants(s) ==
 
 \* the yield flag belongs to the first decision taken inside a yield-requesting operation
 ExpectedY(s) ==
-  /\ s.cur # -1 /\ ~s.fin[s.cur+1] /\ s.ind[s.cur+1] = 0
+  /\ s.cur >= 0 /\ ~s.fin[s.cur+1] /\ s.ind[s.cur+1] = 0
   /\ \/ (Ph(s, s.cur) = "ready" /\ NextOp(s, s.cur).k \in {"yield", "spin"})
      \/ Ph(s, s.cur) = "parked"
+     \/ (Ph(s, s.cur) = "ready" /\ NextOp(s, s.cur).k = "exit" /\ s.dty[s.cur+1])   \* a destructor yielded
 
 Sorted(q) == \A i \in 1..(Len(q) - 1) : q[i] < q[i+1]
 
@@ -47,9 +48,12 @@ Dec(e) ==
      /\ e.det = <<>>
      /\ e.cur = s1.cur
      /\ e.y = ExpectedY(s1)
-     /\ e.ch \in Range(e.run)
-     /\ S' = [s1 EXCEPT !.cur = e.ch, !.slen = @ + 1,
-                        !.ind = IF s1.cur = -1 THEN @ ELSE [@ EXCEPT ![s1.cur+1] = @ + 1]]
+     /\ \/ /\ e.ch \in Range(e.run)
+           /\ S' = [s1 EXCEPT !.cur = e.ch, !.slen = @ + 1,
+                              !.ind = IF s1.cur < 0 THEN @ ELSE [@ EXCEPT ![s1.cur+1] = @ + 1]]
+        \* the scheduler returned no task: the execution stops here without failure
+        \/ /\ e.ch = -1
+           /\ S' = [s1 EXCEPT !.cur = -2]
 
 Op(e) ==
   LET t == e.t IN
@@ -62,16 +66,45 @@ Op(e) ==
        /\ ("sl" \in DOMAIN e => e.sl = s1.slen)
        /\ LET res == Complete(s1, t) IN e.r = res.r /\ S' = res.s
 
+\* a thread-local destructor ran (logged from Drop): the first live slot of the exiting thread
+Dt(e) ==
+  LET t == e.t IN
+  /\ t = S.cur /\ ~S.fin[t+1]
+  /\ Ph(S, t) = "ready" /\ NextOp(S, t).k = "exit"
+  /\ TlsLive(S, t) # <<>>
+  /\ LET sl == Head(TlsLive(S, t))
+         touch == Prog(S).tls_touch[sl.key + 1]
+         s1 == TlsKill(S, t)
+     IN /\ e.key = sl.key /\ e.val = sl.val /\ e.touch = touch
+        \* the destructor may read another key: initialising it (destructed later in turn), or an error if already dead
+        /\ e.tr = (IF touch >= 0 THEN TlsRead(s1, t, touch).v ELSE 0)
+        /\ S' = [(IF touch >= 0 THEN TlsTouch(s1, t, touch) ELSE s1) EXCEPT
+                    !.ind[t+1] = 0, !.dty[t+1] = Prog(S).tls_yield[sl.key + 1] # 0,
+                    !.wk[t+1] = IF Prog(S).tls_yield[sl.key + 1] # 0 THEN TRUE ELSE @]
+
+\* a lazy static's value is dropped when the execution is cleaned up
+Over(s) == Ends(s) \/ BoundHit(s) \/ s.cur = -2
+DropEv(e) ==
+  /\ e.what = "lazy"
+  /\ \E s1 \in Variants(S) :
+       /\ Over(s1)
+       /\ s1.once[Prog(s1).nonce + 2 + e.i + 1].st = "done" /\ e.i \notin s1.lzdropped
+       /\ S' = [s1 EXCEPT !.lzdropped = @ \cup {e.i}]
+
 Rnd(e) == S' = [S EXCEPT !.slen = @ + 1, !.rv = e.m]
 
 End(e) ==
   \E s1 \in Variants(S) :
+     \* every lazy static initialised in this execution has been dropped, every thread-local instance too
+     /\ (e.v \in {"ok", "stopped"} => /\ \A i \in 0..1 : s1.once[Prog(s1).nonce + 2 + i + 1].st = "done" => i \in s1.lzdropped
+                                       /\ ("tlslive" \in DOMAIN e => e.tlslive = 0))
      /\ CASE e.v = "ok" -> \/ (~BoundHit(s1) /\ Ends(s1) /\ Unfinished(s1) = {})
                             \* abandoned silently by a continue-after bound (or: finished exactly on the bound)
                             \/ (BoundHit(s1) /\ (~BoundFails(s1) \/ (Ends(s1) /\ Unfinished(s1) = {})))
           [] e.v = "deadlock" -> ~BoundHit(s1) /\ Ends(s1) /\ Unfinished(s1) # {} /\ Range(e.bl) = Unfinished(s1)
           [] e.v = "maxsteps" -> BoundHit(s1) /\ BoundFails(s1)
-          [] e.v = "panic" -> s1 = S /\ S.cur # -1 /\ PanicKind(S, S.cur) # "" /\ e.pk = PanicKind(S, S.cur)
+          [] e.v = "stopped" -> s1 = S /\ S.cur = -2
+          [] e.v = "panic" -> s1 = S /\ S.cur >= 0 /\ PanicKind(S, S.cur) # "" /\ e.pk = PanicKind(S, S.cur)
           [] OTHER -> FALSE
      /\ S' = s1
 
@@ -79,6 +112,8 @@ Apply(e) == CASE e.e = "exec" -> S' = InitState(ProgIdx(e.p))
               [] e.e = "dec" -> Dec(e)
               [] e.e = "op" -> Op(e)
               [] e.e = "rnd" -> Rnd(e)
+              [] e.e = "dt" -> Dt(e)
+              [] e.e = "drop" -> DropEv(e)
               [] e.e = "end" -> End(e)
 
 Init == node = 1 /\ S = [p |-> 0]
